@@ -201,6 +201,12 @@ _MODULE_FUNCS = {
     ("math", "radians"): math.radians,
     ("math", "degrees"): math.degrees,
     ("math", "sqrt"): math.sqrt,
+    ("math", "cos"): math.cos,
+    ("math", "sin"): math.sin,
+    ("math", "tan"): math.tan,
+    ("math", "acos"): math.acos,
+    ("math", "asin"): math.asin,
+    ("math", "atan"): math.atan,
     # builtin class methods that build plain values (insertion-ordered de-duplication etc.)
     ("copy", "copy"): lambda v: _copy_containers(v, False),
     ("copy", "deepcopy"): lambda v: _copy_containers(v, True),
